@@ -1,5 +1,5 @@
 (* Ops.v — composite operations exposed to the correspondence check (end to end from bytes). *)
-From GQL.model Require Import Base Utf8 Lexer Ast Parser Prog ParseQuery ParseSchema Json Format Schema.
+From GQL.model Require Import Base Utf8 Lexer Ast Parser Prog ParseQuery ParseSchema Json Format Schema Walk Rules Rules2 Validate.
 From GQL.gen Require Import Prelude.
 
 Definition dump_json_roundtrip (d : dev) (input : str) : str :=
@@ -64,4 +64,26 @@ Definition dump_load_with (d : dev) (pre : pres sdoc) (srcs : list str) : str :=
   match load_schema_with d pre srcs with
   | Some s => b "ok " ++ dump_schema s
   | None => b "err"
+  end.
+
+(* ---------------- validation ---------------- *)
+Fixpoint split_on (sep : N) (l cur : str) : list str :=
+  match l with
+  | [] => [rev cur]
+  | c :: tl => if (c =? sep)%N then rev cur :: split_on sep tl [] else split_on sep tl (c :: cur)
+  end.
+
+(* rules: "*" for the default set, else comma-separated rule names *)
+Definition select_rules (s : schema) (doc : qdoc) (rules : str) : list rinst :=
+  if str_eqb rules (b "*") then default_rules s doc
+  else flat_map (fun n => match rule_by_name s doc n with Some r => [r] | None => [] end) (split_on 44 rules []).
+
+Definition dump_validate_with (d : dev) (pre : pres sdoc) (rules query : str) (srcs : list str) : str :=
+  match load_schema_with d pre srcs with
+  | None => b "schema-err"
+  | Some s =>
+    match parseQuery d 0 query with
+    | PErr e => b "query-" ++ dump_perr e
+    | POk doc => b "ok " ++ dump_verrs (validate_with s doc (select_rules s doc rules))
+    end
   end.
